@@ -37,7 +37,7 @@ var accepted = map[string][]string{
 	"C12": {"journal", "panic"},
 	"C13": {"table", "panic"},
 	"C14": {"memdb", "panic", "hang"},
-	"C16": {"get", "scan", "iter", "panic"},
+	"C16": {"get", "scan", "iter", "snapget", "snapiter", "recover", "panic"},
 	"C17": {"cache", "panic", "hang"},
 	"C18": {"lock", "readonly-mutate", "readonly", "closed", "released", "get", "scan", "hang", "panic"},
 	"C19": {"recover", "scan", "get", "iter", "lsm", "panic", "hang"},
